@@ -159,7 +159,7 @@ REG.update({
                  "EVM half (evmsim TestC16): generated contract programs (S3 harness) weighted towards CREATE/CREATE2 (salts ground for in-zone Quai addresses, arbitrary salts, and salts ground for in-zone Qi-ledger addresses), value transfers, external calls and self-destructs aimed at Qi and foreign-zone addresses, with out-of-gas cuts and injected frame failures; "
                  "oracle (creation-scope): a creation that reports success reports an in-zone Quai address that equals the CREATE2 derivation, a CREATE2 towards an out-of-scope address fails and leaves no account; (state-scope) after every transaction none of the out-of-scope addresses the run pointed at exists in the state. "
                  "Oracle after every head change: (state-scope) none of the addresses the run could have touched that are outside zone 0-0's Quai ledger - the Qi-ledger conversion recipients and coinbases, and foreign-zone twins of the funded accounts - exists as an account in the state at the header's roots; "
-                 "(utxo-scope) every stored UTXO is owned by an in-zone Qi-ledger address."),
+                 "(utxo-scope) every stored UTXO is owned by an in-zone Qi-ledger address." + ' Fork sides of the Qi validator: a Qi wrapping transaction and a Qi->Quai conversion over a live unspent output are judged by core.ProcessQiTx under copies of the pending header whose prime terminus number is moved to F-2, F-1, F, F+1 for every fork that gates that code (Qi wrapping change, KawPow and SHA-equivalent forks and the ends of their conversion hold windows; base fee 1, post-fork share fields populated): same side, same verdict and same number of stored outputs; from the wrapping change on, no output is stored for a Quai-ledger owner.'),
         "expect_probes": ["reorg"],
         "components": S5_COMPONENTS,
         "assumptions": ["agreement of constructors/decoders is decided on a boundary table, not on all 2^160 addresses; the location-less decoders (UnmarshalJSON / UnmarshalText / DecodeRLP) are in the table and are an open known finding",
@@ -171,7 +171,7 @@ REG.update({
         "rule": S5_RULE + ("The zone database engine (memorydb / leveldb / pebble on a scratch directory) is drawn per run. Oracle 1 (utxo-model), for every block the node accepts as head: with the stored UTXO set before and after the block, every Qi transaction's inputs are distinct, unspent on this chain "
                  "(outputs created earlier in the block allowed), unlocked, owned by the key that the harness itself verifies the (MuSig2-aggregated) Schnorr signature against, outputs <= inputs; everything that disappeared was spent or trimmable, everything that appeared is a transaction output or was minted by an inbound ETX of the block for no more than its value. "
                  "Oracle 2 (direct-verdict), every third head: the validator's Qi path core.ProcessQiTx is driven with adversarial transactions over the live UTXO set through a batch of the drawn engine "
-                 "(same outpoint twice in one tx, same outpoint in two txs of one block, spend of an output created earlier in the block, locked input, non-owner key, outputs > inputs, honest single-key and two-input MuSig2 spends) and its accept/reject verdict must equal the model's." + " Added after seeding waves 4/5: adversarial cases 'second input not owned, same pubkey', 'payment to an in-zone Quai-ledger payee', 'k+1 notes merged into one note of the next denomination'; every verdict that does not concern the signature is taken twice - with the signature check and with the sender-cache shortcut (checkSig=false) - and must agree."),
+                 "(same outpoint twice in one tx, same outpoint in two txs of one block, spend of an output created earlier in the block, locked input, non-owner key, outputs > inputs, honest single-key and two-input MuSig2 spends) and its accept/reject verdict must equal the model's." + " Added after seeding waves 4/5: adversarial cases 'second input not owned, same pubkey', 'payment to an in-zone Quai-ledger payee', 'k+1 notes merged into one note of the next denomination'; every verdict that does not concern the signature is taken twice - with the signature check and with the sender-cache shortcut (checkSig=false) - and must agree." + ' Fork sides of the Qi validator: a Qi wrapping transaction and a Qi->Quai conversion over a live unspent output are judged by core.ProcessQiTx under copies of the pending header whose prime terminus number is moved to F-2, F-1, F, F+1 for every fork that gates that code (Qi wrapping change, KawPow and SHA-equivalent forks and the ends of their conversion hold windows; base fee 1, post-fork share fields populated): same side, same verdict and same number of stored outputs; from the wrapping change on, no output is stored for a Quai-ledger owner.'),
         "expect_probes": ["qi_tx_in_accepted_block", "qi_minted_by_inbound_etx", "qi_adversarial.second-tx-same-outpoint-in-block", "qi_adversarial.dup-outpoint-in-one-tx", "qi_adversarial.locked-input", "qi_adversarial.two-input-musig-honest", "reorg"],
         "components": S5_COMPONENTS,
         "assumptions": ["wrong-denomination merges, wrapping and Qi->Quai conversion outputs are not generated", "fork regimes other than the default (QiWrappingChangeBlock etc.) are not varied",
